@@ -68,18 +68,40 @@ func BigDecimalFloatToUint(value *apd.Decimal) (uint64, error) {
 
 // big.Float to other
 
+// Beyond this binary exponent (positive or negative), a big.Float is not
+// rendered as decimal text for an error message. The cost of that conversion
+// grows faster than linearly with the exponent: a 16 byte document containing
+// 0x1p-100000000 would otherwise take minutes and gigabytes, merely to word
+// the error.
+const maxBase2ExponentForDecimalText = 10000
+
+// apd.Decimal cannot hold base-10 exponents beyond +-100000, which is a
+// base-2 exponent of about +-332200.
+const maxBase2ExponentForBigDecimalFloat = 400000
+
+// Describe a big.Float for use in an error message.
+func DescribeBigFloat(value *big.Float) string {
+	if exp := value.MantExp(nil); exp > maxBase2ExponentForDecimalText || exp < -maxBase2ExponentForDecimalText {
+		return value.Text('p', 0)
+	}
+	return fmt.Sprint(value)
+}
+
 func BigFloatToPBigDecimalFloat(value *big.Float) (*apd.Decimal, error) {
+	if exp := value.MantExp(nil); exp > maxBase2ExponentForBigDecimalFloat || exp < -maxBase2ExponentForBigDecimalFloat {
+		return nil, fmt.Errorf("%v has a binary exponential component (%v) that is too large for a decimal float", DescribeBigFloat(value), exp)
+	}
 	d, _, err := apd.NewFromString(BigFloatToString(value))
 	return d, err
 }
 
 func BigFloatToBigInt(value *big.Float, maxBase2Exponent int) (*big.Int, error) {
 	if value.MantExp(nil) > maxBase2Exponent {
-		return nil, fmt.Errorf("%v has a binary exponential component (%v) that is too large for a big int (max %v)", value, value.MantExp(nil), maxBase2Exponent)
+		return nil, fmt.Errorf("%v has a binary exponential component (%v) that is too large for a big int (max %v)", DescribeBigFloat(value), value.MantExp(nil), maxBase2Exponent)
 	}
 	bi, accuracy := value.Int(new(big.Int))
 	if accuracy != big.Exact {
-		return nil, fmt.Errorf("%v cannot fit into a big.Int", value)
+		return nil, fmt.Errorf("%v cannot fit into a big.Int", DescribeBigFloat(value))
 	}
 	return bi, nil
 }
@@ -87,17 +109,17 @@ func BigFloatToBigInt(value *big.Float, maxBase2Exponent int) (*big.Int, error) 
 func BigFloatToFloat(value *big.Float) (float64, error) {
 	exp := value.MantExp(nil)
 	if exp < -1029 {
-		return 0, fmt.Errorf("%v is too small to fit into a float64", value)
+		return 0, fmt.Errorf("%v is too small to fit into a float64", DescribeBigFloat(value))
 	}
 	if exp > 1024 {
-		return 0, fmt.Errorf("%v is too big to fit into a float64", value)
+		return 0, fmt.Errorf("%v is too big to fit into a float64", DescribeBigFloat(value))
 	}
 	f, accuracy := value.Float64()
 	if accuracy != big.Exact {
 		if f == 0 {
-			return 0, fmt.Errorf("%v is too small to fit into a float64", value)
+			return 0, fmt.Errorf("%v is too small to fit into a float64", DescribeBigFloat(value))
 		} else if math.IsInf(f, 0) {
-			return 0, fmt.Errorf("%v is too big to fit into a float64", value)
+			return 0, fmt.Errorf("%v is too big to fit into a float64", DescribeBigFloat(value))
 		}
 	}
 
@@ -107,10 +129,10 @@ func BigFloatToFloat(value *big.Float) (float64, error) {
 func BigFloatToInt(value *big.Float) (int64, error) {
 	i, accuracy := value.Int64()
 	if accuracy != big.Exact {
-		return 0, fmt.Errorf("cannot convert %v to int", value)
+		return 0, fmt.Errorf("cannot convert %v to int", DescribeBigFloat(value))
 	}
 	if big.NewFloat(float64(i)).Cmp(value) != 0 {
-		return 0, fmt.Errorf("cannot convert %v to int", value)
+		return 0, fmt.Errorf("cannot convert %v to int", DescribeBigFloat(value))
 	}
 	return i, nil
 }
@@ -118,10 +140,10 @@ func BigFloatToInt(value *big.Float) (int64, error) {
 func BigFloatToUint(value *big.Float) (uint64, error) {
 	u, accuracy := value.Uint64()
 	if accuracy != big.Exact {
-		return 0, fmt.Errorf("cannot convert %v to uint", value)
+		return 0, fmt.Errorf("cannot convert %v to uint", DescribeBigFloat(value))
 	}
 	if big.NewFloat(float64(u)).Cmp(value) != 0 {
-		return 0, fmt.Errorf("cannot convert %v to uint", value)
+		return 0, fmt.Errorf("cannot convert %v to uint", DescribeBigFloat(value))
 	}
 	return u, nil
 }
